@@ -242,11 +242,26 @@ def classify_preset(c):
 
 # ---------------------------------------------------------------------------
 # one object, several digests with changing parameters
+def disturb(obj, call, B):
+    """streaming or refused use of the object between two one-shot digests: never judged itself"""
+    how, data = call[1], call[2]
+    if how == "update-blocks":
+        attempt(obj.update, (data * (B // max(1, len(data)) + 1))[:B] if data else b"")
+    elif how == "update-final":
+        attempt(obj.update, data, padding=True)
+    elif how == "refused":
+        attempt(obj, data, bitlen=8 * len(data) + 5)      # BLAKE: over-long bit length; BLAKE2: unknown keyword
+
+
 def check_history(c):
     kind = c["kind"]
     if kind == "blake":
         obj = guard(Blake, c["n"])
-        for i, (M, salt, L) in enumerate(c["calls"]):
+        for i, call in enumerate(c["calls"]):
+            if call[0] == "disturb":
+                disturb(obj, call, bb(c["n"]))
+                continue
+            M, salt, L = call
             kw = {}
             if salt:
                 kw["s"] = salt
@@ -259,7 +274,11 @@ def check_history(c):
     else:
         w = 64 if kind == "blake2b" else 32
         obj = guard(Blake2, 512 if kind == "blake2b" else 256)
-        for i, (M, p) in enumerate(c["calls"]):
+        for i, call in enumerate(c["calls"]):
+            if call[0] == "disturb":
+                disturb(obj, call, 2 * w)
+                continue
+            M, p = call
             got = guard(obj, M, **p)
             exp = b2_ref({"f": kind, "M": M, "params": p})
             if got != exp:
@@ -267,11 +286,13 @@ def check_history(c):
 
 
 def history_strategy(tier):
+    dist = st.tuples(st.just("disturb"), st.sampled_from(["update-blocks", "update-blocks", "update-final", "refused"]), gen.blob_of(gen.uint(0, 40)))
     def blake_h(n):
         w = 64 if n > 256 else 32
         call = st.tuples(gen.blob_of(gen.uint(0, 2 * bb(n) + 3)), gen.pick((1, st.just(0)), (1, gen.nbits(4 * w))), gen.uint(0, 9)).map(
             lambda t: (t[0], t[1], None if t[2] > 6 or not t[0] else 8 * len(t[0]) - t[2]))
-        return st.lists(call, min_size=2, max_size=4).map(lambda l: {"kind": "blake", "n": n, "calls": tuple(l)})
+        return st.lists(gen.pick((4, call), (1, dist)), min_size=2, max_size=4).map(
+            lambda l: {"kind": "blake", "n": n, "calls": tuple(l) + ((b"after", 0, None),) * (l[-1][0] == "disturb")})
 
     def blake2_h(which):
         w = 64 if which == "blake2b" else 32
@@ -279,7 +300,8 @@ def history_strategy(tier):
         par = st.fixed_dictionaries({}, optional={"outlen": gen.uint(1, w), "salt": gen.blob(l), "pers": gen.blob(l), "fanout": gen.uint(0, 255),
                                                   "depth": gen.uint(1, 255), "inner": gen.uint(0, w), "ndepth": gen.uint(0, 255)})
         call = st.tuples(gen.blob_of(gen.uint(0, 5 * w)), par)
-        return st.lists(call, min_size=2, max_size=4).map(lambda l_: {"kind": which, "calls": tuple(l_)})
+        return st.lists(gen.pick((4, call), (1, dist)), min_size=2, max_size=4).map(
+            lambda l_: {"kind": which, "calls": tuple(l_) + ((b"after", {}),) * (l_[-1][0] == "disturb")})
     return gen.pick((1, st.sampled_from([224, 256, 384, 512]).flatmap(blake_h)), (1, st.sampled_from(["blake2b", "blake2s"]).flatmap(blake2_h)))
 
 
@@ -303,7 +325,9 @@ FACETS = [
           rule="initstate(); H := random chaining words; padmethod.bitcnt := block multiple just below 2^w / 2^(2w) (bits for BLAKE, bytes*8 for BLAKE2) "
                "or uniformly large; update(tail, padding=True) == resumable reference"),
     Facet("reused-object", check_history, strategy=history_strategy, budget={"quick": 1000, "thorough": 15000}, shards={"quick": 16, "thorough": 32},
-          nontrivial=lambda c: True, classify=lambda c: (c["kind"],),
-          rule="2..4 digests computed one after the other by ONE object with changing salt / bit length / BLAKE2 parameters"),
+          nontrivial=lambda c: True,
+          classify=lambda c: (c["kind"], "has streaming/refused call" if any(x[0] == "disturb" for x in c["calls"]) else "one-shot only"),
+          rule="2..5 calls on ONE object: one-shot digests with changing salt / bit length / BLAKE2 parameters, interleaved with streaming "
+               "update() calls (one whole block, or a padded final piece) and refused calls; every one-shot digest is judged"),
 ]
 WEIGHT = {"blake-length-sweep": 8, "blake2-parameters": 6, "blake2-length-sweep": 5}
